@@ -16,8 +16,8 @@ THEOREMS = ["multseq_sorted_once", "multseq_sound", "multseq_refuses_iff", "mult
             "zoom_level_eq_direct", "zoom_levels_eq_chain", "zoom_layout", "specLevel_compose", "coarsenLevel_eq_spec",
             "expandSpec_int", "expandSpec_list", "mem_binary", "mem_nice", "preferred_bounds",
             "legacy_level_eq_direct", "legacy_levels_ok", "legacy_chunk_independent", "legacyBinsizes_get", "clog2_spec",
-            "quadtreeDepth_spec"]
-LEVELS = {"zoomify": "top", "columns": "top", "cli": "top", "forms": "top", "sequence": "top", "mixed_dtypes": "top", "multseq": "unit", "preferred": "unit", "legacy": "top"}
+            "quadtreeDepth_spec", "zoomify_file", "zoomify_file_prior", "expandTokens_ok", "expandSpec_perm"]
+LEVELS = {"zoomify": "top", "columns": "top", "cli": "top", "forms": "top", "sequence": "top", "mixed_dtypes": "top", "multseq": "unit", "preferred": "unit", "legacy": "top", "reuse": "top"}
 DESCRIBE = {
     "zoomify": "cooler.zoomify_cooler(bases, out, resolutions, chunksize, nproc): refusal iff Lean `getMultiplierSequence` errs; "
                "`list_coolers(out)` = Lean `listing` (exactly /resolutions/<r> for r in the sorted union), `is_multires_file`; every base "
@@ -26,7 +26,10 @@ DESCRIBE = {
                "zoom_level_eq_direct); every level judged by the C02 raw monitor",
     "columns": "zoomify_cooler(columns=['count','w']): derived levels carry the extra column with the per-key sums (D25 regression)",
     "cli": "`cooler zoomify -r <spec> [-i base2]` (CliRunner) for every spelling (N, B, 4DN, <k>N, <k>B, integers, comma lists, upper "
-           "case, blanks, default): produced resolutions = Lean `expandResolutionSpec` + base; levels = Lean L0; bad items exit != 0",
+           "case, blanks, default): produced resolutions = Lean `expandResolutionSpec` + base; levels = Lean L0; bad items exit != 0; "
+           "lists of 2-3 items of mixed kinds (bare N/B, <k>N/<k>B with an explicit start, integers) in EVERY order on genomes long "
+           "enough for several terms (theorems expandTokens_ok / expandSpec_perm: every item is expanded from the same current "
+           "resolution whatever precedes it; the set produced does not depend on the order)",
     "forms": "the same target set handed to zoomify_cooler as a list, tuple, set, frozenset, numpy array, pandas Series, dict keys, range, "
              "generator, iter(list) and map object: the levels written (listing, layout) and their content must not depend on the form — "
              "each run vs the same Lean model",
@@ -43,6 +46,12 @@ DESCRIBE = {
               "legacy_level_eq_direct), every level judged by the C02 raw monitor, root attributes max-zoom(s) and level -> bin size = "
               "Lean `legacyBinsizes`; run with the real tile dimension 256 (bases of 260-1100 bins) and with the module constant "
               "HIGLASS_TILE_DIM set to 1-4 (small bases, depths up to 4)",
+    "reuse": "2-4 runs (zoomify_cooler, `cooler zoomify -r`, legacy_zoomify) writing ONE output path, which may already hold a "
+             "single-resolution cooler or a legacy quad-tree: each run has its own bases (the same again, or another width / genome) and "
+             "its own ladder (the same, a strict part, another one, one that is refused); after every accepted run list_coolers, the "
+             "layout, is_multires_file and every level = what that run ALONE produces (Lean `zoomifyFile prior ...` = `zoomEntries`, "
+             "theorems zoomify_file / zoomify_file_prior: the first base is copied into a truncated file) — nothing of an earlier run "
+             "survives",
     "multseq": "get_multiplier_sequence(resolutions, bases): raises iff Lean says so (some non-base member has no smaller member "
                "dividing it, equivalently is not a multiple of any base: theorems multseq_refuses_iff / _bases); otherwise its output "
                "satisfies the Lean contract `validMultSeq` and `resn` is the sorted union",
@@ -52,7 +61,11 @@ RULE = ("bases of width 1-3 over 1-2 chromosomes (<= 14 bins, short last bins) a
         "= subsets of size <= 3 of the multiples <= 12*base (quick: seeded sample of ~60; thorough: all 299) in shuffled order, with "
         "and without the base, with a non-derivable member (must raise); 1, 2 and 3 base URIs with INDEPENDENT data (a base that is "
         "a multiple of another base must stay a copy of its own source: D19; two bases: D9); chunksize 1..nnz+1, nproc 1 (quick) / "
-        "1-2 (thorough); forms: 11 presentations of one target set; sequence: int32 -> float64 (quarters) -> int32 calls in one process, "
+        "1-2 (thorough); bin sizes of ANY magnitude (quick 24 / thorough 160 cases): base width 1-12, 13-400, {1,2,5}x10^k (k<=5) or 2^k "
+        "(k<=14), 4-10 targets = width x multipliers 2..400 (some multiples of one another), 2-4 coarse bins per chromosome at the "
+        "coarsest level, sparse pixels placed on the first/last base bin of coarse bins; cli lists: 3 (thorough 10) long genomes x 3-4 "
+        "item sets x all orders; reuse: 3 corpus + 20 (thorough 120) histories of 2-4 runs on one path; legacy: every other case with a "
+        "base width of any magnitude; forms: 11 presentations of one target set; sequence: int32 -> float64 (quarters) -> int32 calls in one process, "
         "dtypes omitted; mixed_dtypes: int32 base + float64 (quarters) base of coprime widths, explicit dtypes dicts and the CLI; multseq: ALL resolution sets within {1..24} of size <= 3 x bases None / subsets of resolutions+{1,2,3} (quick: "
         "size <= 2; thorough: all); non-trivial = >= 2 levels and >= 2 pixels; distinct by canonical JSON")
 EXHAUSTIVE = {"quick": False, "thorough": True}
@@ -609,11 +622,19 @@ CHECKS = {"zoomify": _zoomify, "columns": _columns, "cli": _cli, "forms": _forms
 
 def _legacy(case):
     """legacy_zoomify / `cooler zoomify --legacy`: levels ::n … ::0, each the direct coarsening of the base by 2^k"""
-    import cooler._reduce as red
     d = gen.tmpdir()
     tag = _tag()
     src = os.path.join(d, f"zl-{tag}-src.cool")
     out = os.path.join(d, f"zl-{tag}-out.mcool")
+    try:
+        return _legacy_at(case, src, out)
+    finally:
+        _unlink(out, src)
+
+
+def _legacy_at(case, src, out):
+    """the legacy producer writing `out` (which may already exist: it is opened with mode "w"); `src` is scratch"""
+    import cooler._reduce as red
     b = case["base"]
     old = red.HIGLASS_TILE_DIM
     try:
@@ -667,10 +688,90 @@ def _legacy(case):
         return {"stats": {"legacy_levels": n + 1, f"legacy_depth={n}": 1}}
     finally:
         red.HIGLASS_TILE_DIM = old
-        _unlink(out, src)
+        _unlink(src)
 
 
 CHECKS["legacy"] = _legacy
+
+
+def _reuse(case):
+    """several runs writing the SAME output path: after every run the file is exactly what that run alone produces"""
+    import cooler._reduce as red
+    from click.testing import CliRunner
+    from cooler.cli import cli
+    d = gen.tmpdir()
+    tag = _tag()
+    out = os.path.join(d, f"zr-{tag}-out.mcool")
+    scratch = os.path.join(d, f"zr-{tag}-src.cool")
+    paths = []
+    try:
+        _unlink(out)
+        pr = case.get("prior")
+        if pr:      # what an unrelated earlier use of the path left there
+            pb = pr["base"]
+            if pr["kind"] == "cool":
+                gen.write_cooler(out, pb["bins"], pb["pixels"], symm=pb.get("symm", True))
+            else:
+                gen.write_cooler(scratch, pb["bins"], pb["pixels"], symm=pb.get("symm", True))
+                old = red.HIGLASS_TILE_DIM
+                try:
+                    red.HIGLASS_TILE_DIM = pr.get("tile", 2)
+                    red.legacy_zoomify(scratch, out, 1, 100)
+                finally:
+                    red.HIGLASS_TILE_DIM = old
+                    _unlink(scratch)
+        done = []
+        for k, step in enumerate(case["steps"]):
+            before = list(cooler.fileops.list_coolers(out)) if os.path.exists(out) else []
+            where = {"call": k, "route": step["route"], "path_held_before": before,
+                     "calls_so_far": done + [step["route"]]}
+            if step["route"] == "legacy":
+                r = _legacy_at(step, scratch, out)
+                if r and r.get("mismatch"):
+                    return dict(r, **where, note="a run over an existing output file must leave exactly its own levels")
+                done.append("legacy")
+                continue
+            _unlink(*paths)
+            paths = _write_bases(step, d, f"{tag}-s{k}")
+            res = list(step["resolutions"])
+            lean_bases = [{"res": _base_res(b), "bins": b["bins"], "pixels": b["pixels"]} for b in step["bases"]]
+            m = drv().ask("C09.zoomify", bases=lean_bases, resolutions=res, chunksize=step["chunksize"], prior=before)
+            assert m["bases_ok"], "generator produced a base outside the theorems' hypotheses"
+            cr = None
+            if step["route"] == "cli":
+                args = ["zoomify", "-c", str(step["chunksize"]), "-o", out, "-r", ",".join(map(str, res))]
+                for p in paths[1:]:
+                    args += ["-i", p]
+                cr = impl(lambda: CliRunner().invoke(cli, args + [paths[0]]))
+                r = ("ok", None) if cr.exit_code == 0 else ("err", errclass(cr.exception) if cr.exception else "exit")
+            else:
+                r = guarded(cooler.zoomify_cooler, list(paths), out, res, step["chunksize"])
+            if "err" in m:
+                if r[0] == "ok":
+                    return dict(where, mismatch=True, what="a resolution that is not a multiple of any base was not refused")
+                if step["route"] == "lib" and r[1] != m["err"]:
+                    return dict(where, mismatch=True, what="refusal", impl=r[1], model=m["err"])
+                done.append(step["route"] + " (refused)")
+                continue            # what a refused run leaves at the path is not specified
+            if r[0] == "err":
+                if step["route"] == "lib":
+                    impl(cooler.zoomify_cooler, list(paths), out, res, step["chunksize"])
+                return dict(where, mismatch=True, what="zoomify failed on derivable targets",
+                            exception=repr(cr.exception)[:300] if cr is not None else r[1])
+            mo = m["ok"]
+            assert mo["l1_agrees"] and mo["multseq_valid"], "theorem zoom_level_eq_direct / multseq_sound contradicted"
+            assert mo["file_is_this_run"] and mo["file_listing"] == mo["listing"], "theorem zoomify_file contradicted"
+            x = _check_output(step, out, paths, mo)
+            if x:
+                return dict(x, **where, note="after a run over an existing output file the file must hold exactly the levels of "
+                                             "THIS run (requested + bases), each the coarsening of THIS run's base")
+            done.append(step["route"])
+        return {"stats": {"runs_on_one_path": len(case["steps"])}}
+    finally:
+        _unlink(out, scratch, *paths)
+
+
+CHECKS["reuse"] = _reuse
 
 
 # ----------------------------------------------------------------------------------------------
@@ -741,6 +842,169 @@ def _one_case(rng, mults, thorough, nbases=None, bad=None, variable=None):
     return c
 
 
+def _any_width(rng):
+    """a base bin size of any magnitude: small, arbitrary up to a few hundred, round decimal, power of two"""
+    k = rng.randrange(4)
+    if k == 0:
+        return rng.randint(1, 12)
+    if k == 1:
+        return rng.randint(13, 400)
+    if k == 2:
+        return rng.choice([1, 2, 5]) * 10 ** rng.randint(1, 5)
+    return 2 ** rng.randint(4, 14)
+
+
+def _any_mults(rng, n, cap=400):
+    """n target multipliers of any magnitude up to `cap` (small, medium, large), some of them multiples of others (chains)"""
+    ms = set()
+    while len(ms) < n:
+        k = rng.randrange(8)         # 1/4 small, 3/8 medium, 3/8 large: arbitrary (not small, not round) values are the majority
+        m = rng.randint(2, 12) if k < 2 else rng.randint(13, min(60, cap)) if k < 5 else rng.randint(min(61, cap), cap)
+        ms.add(m)
+        if rng.random() < 0.3 and m * 3 <= cap:
+            ms.add(m * rng.choice([2, 3]))
+    return sorted(ms)
+
+
+def _boundary_pixels(rng, counts, mults, symm, extra=20):
+    """sparse pixels over chromosomes of `counts` bins that sit where a re-binning by any of `mults` can go wrong: on the first
+    base bin of a coarse bin and on the last one of the coarse bin before it (the first coarse boundaries of every chromosome and
+    some random ones), on the chromosome ends, plus `extra` random cells"""
+    offs = [0]
+    for n in counts:
+        offs.append(offs[-1] + n)
+    N = offs[-1]
+    marks = set()
+    for c, n in enumerate(counts):
+        marks |= {offs[c], offs[c] + n - 1}
+        for m in mults:
+            ks = list(range(1, -(-n // m)))
+            for k in ks[:2] + rng.sample(ks, min(1, len(ks))):
+                marks |= {offs[c] + k * m, offs[c] + k * m - 1}
+    marks = sorted(marks)
+    cells = set()
+    for a in marks:
+        for b in (rng.choice(marks), rng.randrange(N)) + ((a,) if rng.random() < 0.3 else ()):
+            cells.add((min(a, b), max(a, b)) if symm else (a, b) if rng.random() < 0.5 else (b, a))
+    for _ in range(extra):
+        a, b = rng.randrange(N), rng.randrange(N)
+        cells.add((min(a, b), max(a, b)) if symm else (a, b))
+    return [[i, j, 1 + (i * 7 + j * 3) % 50] for i, j in sorted(cells)]
+
+
+def _wide_case(rng, thorough):
+    """bin sizes of any magnitude: base width w, targets w*m for multipliers up to a few hundred (several coarse bins per
+    chromosome even at the coarsest level), sparse pixels biased to the coarse-bin boundaries"""
+    w = _any_width(rng)
+    cap = rng.choice([40, 120, 400])
+    mults = _any_mults(rng, rng.randint(4, 9), cap)
+    maxm = max(mults)
+    counts = [maxm * rng.randint(2, 4) + rng.randrange(maxm)]
+    if rng.random() < 0.6:
+        counts.append(rng.randint(2, 2 * maxm))
+    if rng.random() < 0.3:
+        counts.append(rng.randint(1, 3))
+    lengths = [w * n - rng.randrange(w) for n in counts]
+    symm = rng.random() < 0.75
+    bases = [{"width": w, "bins": _fixed_bins(lengths, w), "pixels": _boundary_pixels(rng, counts, mults, symm), "symm": symm}]
+    if rng.random() < 0.25:          # a second, independent base that is a multiple of the first
+        j = rng.randint(2, 5)
+        c2 = [-(-L // (w * j)) for L in lengths]
+        if max(c2) >= 2:
+            bases.append({"width": w * j, "bins": _fixed_bins(lengths, w * j), "symm": symm,
+                          "pixels": _boundary_pixels(rng, c2, [max(1, m // j) for m in mults if m // j >= 2], symm, extra=10)})
+    res = [w * m for m in mults]
+    if rng.random() < 0.4:
+        res.append(w)
+    rng.shuffle(res)
+    nnz = len(bases[0]["pixels"])
+    order = list(range(len(bases)))
+    rng.shuffle(order)
+    c = {"bases": bases, "resolutions": res, "chunksize": rng.choice([rng.randint(max(1, nnz // 8), nnz + 1), rng.randint(max(1, nnz // 3), nnz + 1), nnz + 1]),
+         "uri_order": order}
+    if thorough and rng.random() < 0.1:
+        c["nproc"] = 2
+    return c
+
+
+def _cli_long_base(rng, w):
+    """a genome long enough for the N/B progressions to have several terms: ceil(genome length / 256) = 6w … 12w"""
+    cap = w * rng.randint(6, 12)
+    glen = 256 * cap - rng.randrange(256)
+    l0 = glen * rng.randint(5, 8) // 10
+    lengths = [l0, glen - l0]
+    bins = _fixed_bins(lengths, w)
+    n0 = -(-l0 // w)
+    px = sorted({(rng.randrange(0, n0), rng.randrange(n0, len(bins))) for _ in range(12)})
+    return {"width": w, "bins": bins, "symm": True, "pixels": [[i, j, 1 + k] for k, (i, j) in enumerate(px)]}
+
+
+def _cli_item_sets(rng, w, n):
+    """`n` sets of 2-3 distinct items of a -r list over a base of width w: bare N/B, <k>N/<k>B with an explicit start, integers"""
+    def prog():
+        return f"{w * rng.randint(2, 6)}{rng.choice('nb')}"
+
+    def bare():
+        return rng.choice("nb")
+
+    def integer():
+        return str(w * rng.randint(2, 9))
+    out = []
+    for t in range(n):
+        if t % 2 == 0:       # the item kinds mixed: a bare progression and one with an explicit start (and possibly a third item)
+            items = [bare(), prog()] + ([rng.choice([bare, prog, integer])()] if rng.random() < 0.5 else [])
+        else:
+            items = [rng.choice([bare, prog, integer])() for _ in range(rng.randint(2, 3))]
+        items = sorted(set(items))
+        if len(items) >= 2:
+            out.append(items)
+    return out
+
+
+def _decorate(rng, item):
+    """spelling that must not matter: upper case, blanks around the item"""
+    if rng.random() < 0.3:
+        item = item.upper()
+    if rng.random() < 0.3:
+        item = " " * rng.randint(0, 2) + item + " " * rng.randint(0, 2)
+    return item
+
+
+def _reuse_case(rng):
+    """2-4 runs on one output path; a run keeps the previous run's bases with another ladder, or takes other bases"""
+    steps = []
+    for k in range(rng.randint(2, 4)):
+        if rng.random() < 0.12 and steps:
+            w = rng.randint(1, 3)
+            b = _base(rng, [rng.randint(w + 1, 9 * w)] + ([rng.randint(1, 5 * w)] if rng.random() < 0.6 else []), w, True)
+            steps.append({"route": "legacy", "base": b, "tile": rng.randint(1, 3), "chunksize": rng.randint(1, len(b["pixels"]) + 1)})
+            continue
+        prev = [s_ for s_ in steps if s_["route"] != "legacy"]
+        c = _one_case(rng, rng.sample(range(1, 13), rng.randint(0, 3)), False, bad=rng.random() < 0.1,
+                      variable=rng.random() < 0.1)
+        if prev and rng.random() < 0.55:
+            # the same bases again with another ladder: a strict part of the previous one, the previous one, or a fresh one
+            p = prev[-1]
+            w = p["bases"][0].get("width", 1)
+            how = rng.randrange(3)
+            if how == 0 and len(p["resolutions"]) >= 1:
+                res = rng.sample(p["resolutions"], rng.randint(0, len(p["resolutions"]) - 1))
+            elif how == 1:
+                res = list(p["resolutions"])
+            else:
+                res = [w * m for m in rng.sample(range(1, 13), rng.randint(0, 3))]
+            c = {"bases": p["bases"], "resolutions": res, "chunksize": rng.randint(1, 12)}
+        steps.append({"route": "cli" if (c["resolutions"] and rng.random() < 0.3) else "lib", "bases": c["bases"],
+                      "resolutions": c["resolutions"], "chunksize": c["chunksize"]})
+    case = {"steps": steps}
+    r = rng.random()
+    if r < 0.35:
+        w = rng.randint(1, 3)
+        pb = _base(rng, [rng.randint(w + 1, 9 * w), rng.randint(1, 4 * w)], w, True, "dense-random")
+        case["prior"] = {"kind": "cool" if r < 0.15 else "legacy", "base": pb, "tile": rng.randint(1, 3)}
+    return case
+
+
 def cases(tier, rng):
     thorough = tier == "thorough"
     # corpus ------------------------------------------------------------------------------------
@@ -774,6 +1038,23 @@ def cases(tier, rng):
                                    variable=False)
     for _ in range(24 if thorough else 8):
         yield "zoomify", _one_case(rng, rng.sample(range(2, 13), rng.randint(1, 3)), thorough, variable=True, bad=False)
+    # bin sizes of any magnitude (base widths up to 5e5, multipliers up to 400), pixels on the coarse-bin boundaries ---------
+    for _ in range(160 if thorough else 24):
+        yield "zoomify", _wide_case(rng, thorough)
+    # the same output path written again ------------------------------------------------------------------------------
+    yield "reuse", {"steps": [{"route": "lib", "bases": [b1], "resolutions": [2, 4, 8], "chunksize": 5},
+                              {"route": "lib", "bases": [b1], "resolutions": [2], "chunksize": 5},
+                              {"route": "lib", "bases": [b4], "resolutions": [8], "chunksize": 5},
+                              {"route": "cli", "bases": [b2, b1], "resolutions": [6], "chunksize": 5}]}
+    yield "reuse", {"prior": {"kind": "legacy", "base": b2, "tile": 2},
+                    "steps": [{"route": "cli", "bases": [b2], "resolutions": [4, 12], "chunksize": 4},
+                              {"route": "legacy", "base": dict(b1), "tile": 3, "chunksize": 6},
+                              {"route": "lib", "bases": [b2], "resolutions": [], "chunksize": 4}]}
+    yield "reuse", {"prior": {"kind": "cool", "base": b4},
+                    "steps": [{"route": "lib", "bases": [b4], "resolutions": [8, 5], "chunksize": 4},      # refused
+                              {"route": "lib", "bases": [b4], "resolutions": [8], "chunksize": 4}]}
+    for _ in range(120 if thorough else 20):
+        yield "reuse", _reuse_case(rng)
     # presentation of the target set; sequences of calls in one process -----------------------------------------------
     yield "forms", {"bases": [b2], "resolutions": [8, 4, 6], "chunksize": 3}
     yield "forms", {"bases": [b1, b4], "resolutions": [2, 6, 8], "chunksize": 5}
@@ -833,6 +1114,14 @@ def cases(tier, rng):
               "pixels": sorted([rng.randrange(0, 200), rng.randrange(200, 421), 1 + k] for k in range(10))}
     yield "cli", {"bases": [varbig], "spec": "b", "chunksize": 4}
     yield "cli", {"bases": [varbig], "spec": "3,N", "chunksize": 4}
+    # a -r list is a set of items: every ORDER of 2-3 items of mixed kinds (bare N/B, <k>N/<k>B, integers), on genomes long
+    # enough for the progressions to have several terms, base widths 1-3
+    for t in range(10 if thorough else 3):
+        w = rng.randint(1, 3)
+        lb = _cli_long_base(rng, w)
+        for items in _cli_item_sets(rng, w, 4 if thorough else 3):
+            for perm in itertools.permutations(items):
+                yield "cli", {"bases": [lb], "spec": ",".join(_decorate(rng, x) for x in perm), "chunksize": rng.choice([3, 5, 100])}
     # units ----------------------------------------------------------------------------------------
     ressets = [list(s) for k in range(1, 4) for s in itertools.combinations(range(1, 25), k)]
     for res in ressets:
@@ -845,7 +1134,7 @@ def cases(tier, rng):
     yield "multseq", {"resolutions": [], "bases_list": [None, [2], [2, 3]]}
     # legacy quad-tree producer -------------------------------------------------------------------
     for k in range(60 if thorough else 14):
-        w = rng.randint(1, 3)
+        w = rng.randint(1, 3) if k % 2 == 0 else _any_width(rng)
         symm = rng.random() < 0.75
         if k % 7 == 3:
             # the real tile dimension: 256 bins per tile, bases of 260..1100 bins (depth 1..3), sparse
@@ -909,6 +1198,16 @@ def shrink(name, case):
         for bl in case["bases_list"]:
             if case["bases_list"] != [bl]:
                 yield dict(case, bases_list=[bl])
+    if name == "reuse":
+        if case.get("prior"):
+            yield {k: v for k, v in case.items() if k != "prior"}
+        st = case["steps"]
+        for i in range(len(st)):
+            if len(st) > 1:
+                yield dict(case, steps=st[:i] + st[i + 1:])
+        for i, x in enumerate(st):
+            if x["route"] == "cli":
+                yield dict(case, steps=st[:i] + [dict(x, route="lib")] + st[i + 1:])
 
 
 def escalate(name, case, rng):
